@@ -955,7 +955,9 @@ impl PackageBuilder {
             IndexEntry::new(
                 IndexTag::RPMTAG_GROUP,
                 offset,
-                IndexData::I18NString(vec!["Unspecified".to_string()]),
+                IndexData::I18NString(vec![
+                    self.group.unwrap_or_else(|| "Unspecified".to_string()),
+                ]),
             ),
             IndexEntry::new(
                 IndexTag::RPMTAG_ARCH,
@@ -1360,11 +1362,23 @@ impl PackageBuilder {
             script.apply(&mut actual_records, offset, POSTUNTRANS_TAGS);
         }
 
+        if let Some(script) = self.verify_script {
+            script.apply(&mut actual_records, offset, VERIFYSCRIPT_TAGS);
+        }
+
         if let Some(vendor) = self.vendor {
             actual_records.push(IndexEntry::new(
                 IndexTag::RPMTAG_VENDOR,
                 offset,
                 IndexData::StringTag(vendor),
+            ));
+        }
+
+        if let Some(packager) = self.packager {
+            actual_records.push(IndexEntry::new(
+                IndexTag::RPMTAG_PACKAGER,
+                offset,
+                IndexData::StringTag(packager),
             ));
         }
 
